@@ -36,7 +36,7 @@ const maxLine = 998 // content bytes of a stored line: 1000 including CRLF
 
 func TestMain(m *testing.M) {
 	harness.Property("C18",
-		"texts: 0..10 lines, each from a family (short; Latin-1 length 990..1004, 1990..2002, 2990..2998; a two-byte UTF-8 character placed on UTF-8 byte 998k of its line, k in 1..3 and 66; 1..6000; 65530..65540 and 64 KiB multiples; up to 300 KiB quick / 2 MiB thorough), non-ASCII density 0..100 %, terminators LF / CRLF / none on the last line, runs of empty lines; plus the exhaustive family 'one e-acute at every position of a line of a's' around 998 and 1996. Non-trivial = some line longer than 998 bytes, or non-ASCII text, or LF and CRLF mixed; distinct by hash(text).",
+		"texts: 0..10 lines, each from a family (short; Latin-1 length 990..1004, 1990..2002, 2990..2998; a two-byte UTF-8 character placed on UTF-8 byte 998k of its line, k in 1..3 and 66; 1..6000; 65530..65540 and 64 KiB multiples; up to 300 KiB quick / 2 MiB thorough), non-ASCII density 0..100 %, terminators LF / CRLF / none on the last line, runs of empty lines; plus the exhaustive family 'one e-acute at every position of a line of a's' around 998 and 1996. in half of the cases 1..3 later SetBody calls on other messages follow and the first message is serialised again (its stored body must not change). Non-trivial = some line longer than 998 bytes, or non-ASCII text, or LF and CRLF mixed; distinct by hash(text).",
 		"domain: valid UTF-8, all runes <= U+00FF, every CR followed by LF (bare CR is outside the property's quantifier)",
 		"'apart from normalisation' is read as: line terminators become CRLF, a missing final CRLF is added, extra CRLFs appear only inside lines longer than 998 bytes; empty lines are kept, a line that fits is stored as one line; for the empty text both an empty body and a single CRLF are accepted",
 		"stored body = bytes after the first empty line of Message.Bytes() (no attachments, so nothing follows the body)",
@@ -53,6 +53,10 @@ type Part struct {
 
 type Case struct {
 	Parts []Part `json:"parts"`
+	// Later: texts set on other messages (SetBody) after the text under test was stored; the stored body of
+	// the first message must not change because of them (the guarantee is about the stored body, not about
+	// the return value of one call).
+	Later [][]Part `json:"later,omitempty"`
 	Shape string `json:"shape,omitempty"` // generator families used (information only)
 }
 
@@ -229,6 +233,7 @@ func describe(text string, in []byte) (s shape) {
 }
 
 type outcome struct {
+	later   int // later SetBody calls on other messages after which the stored body was re-checked
 	skipped bool
 	sh      shape
 	stored  int
@@ -246,6 +251,7 @@ func run(c Case) (sig, msg string, o outcome) {
 	o.sh = describe(text, in)
 	o.hash = harness.Hash(text)
 
+	var laterSig, laterMsg string
 	var (
 		setErr, bytesErr, bodyErr, readErr, body2Err error
 		raw                                          []byte
@@ -273,6 +279,23 @@ func run(c Case) (sig, msg string, o outcome) {
 		}
 		bodySize2 = m2.BodySize()
 		body2Str, body2Err = m2.Body()
+		// history: later SetBody calls on other messages must leave this message's stored body alone
+		for i, lp := range c.Later {
+			lt := Case{Parts: lp}.Text()
+			if lb, ok := toLatin1(lt); !ok || bareCR(lb) {
+				continue
+			}
+			mk := fbb.NewMessage(fbb.Private, "N0CALL")
+			if err := mk.SetBody(lt); err != nil {
+				continue // judged when that text is the text under test
+			}
+			again, err := m.Bytes()
+			if err != nil || !bytes.Equal(again, raw) {
+				laterSig, laterMsg = "stored-body-changed-by-later-setbody", fmt.Sprintf("after SetBody of a %d byte text on ANOTHER message (later call %d of %d) the first message serialises differently: err=%v, %d bytes before, %d after, first difference at byte %d", len(lt), i+1, len(c.Later), err, len(raw), len(again), firstDiff(raw, again))
+				return
+			}
+			o.later++
+		}
 	})
 	if psig != "" {
 		return psig, pmsg, o
@@ -369,7 +392,18 @@ func run(c Case) (sig, msg string, o outcome) {
 	if body2Err != nil || body2Str != bodyStr || bodySize2 != bodySize {
 		return "reparse-mismatch", fmt.Sprintf("re-parsed message: Body() = (%d bytes, %v), BodySize() %d; original %d bytes, %d", len(body2Str), body2Err, bodySize2, len(bodyStr), bodySize), o
 	}
+	if laterSig != "" {
+		return laterSig, laterMsg, o
+	}
 	return "", "", o
+}
+
+func firstDiff(a, b []byte) int {
+	i := 0
+	for i < len(a) && i < len(b) && a[i] == b[i] {
+		i++
+	}
+	return i
 }
 
 // ---- generator ----------------------------------------------------------------------------
@@ -527,6 +561,19 @@ func genCase(t *rapid.T) Case {
 			c.Parts = append(c.Parts, Part{term, rep})
 		}
 	}
+	// history: in half of the cases 1..3 later texts are set on other messages afterwards
+	if rapid.Bool().Draw(t, "history") {
+		n := rapid.IntRange(1, 3).Draw(t, "n_later")
+		for i := 0; i < n; i++ {
+			u := rapid.SampledFrom([]string{"x", "later text ", "é", "æøå ÆØÅ ", "0123456789", "\n", "line\r\n"}).Draw(t, "later_unit")
+			lp := []Part{{u, rapid.IntRange(1, 120).Draw(t, "later_rep")}}
+			if rapid.Bool().Draw(t, "later_nl") {
+				lp = append(lp, Part{"\n", 1})
+			}
+			c.Later = append(c.Later, lp)
+		}
+		shapes = append(shapes, "history")
+	}
 	c.Shape = strings.Join(shapes, ",")
 	return c
 }
@@ -563,6 +610,7 @@ func account(c Case, o outcome) {
 	lab(s.crlf > 0 && s.lf == 0, "newlines:crlf-only")
 	lab(s.noFinalNL, "no-final-newline")
 	lab(s.emptyLines > 0, "empty-lines")
+	lab(o.later > 0, "history:stored-body-rechecked-after-later-SetBody")
 	if harness.WantSample() && s.maxLine > maxLine && s.nonASCII && len(c.Parts) <= 8 {
 		harness.Sample(render(c, o))
 	}
